@@ -370,6 +370,33 @@ def case_step(case):
         # deepcopy gives an equal, independent model
         mc = copy.deepcopy(m)
         r.true("deepcopy == model", bool(mc == m), **{"opk": "init"})
+        # constructor keyword forms reach the same state as the corresponding assignments
+        C = getattr(gs, cfg["cls"])
+        base = dict(latlon=cfg["latlon"], temporal=cfg["temporal"], nugget=st["nugget"], rescale=st["rescale"], angles=list(st["angles"]) if st["angles"] else 0.0, **st["opts"])
+        if st["anis"]:
+            base["anis"] = list(st["anis"])
+        if cfg["latlon"]:
+            base["geo_scale"] = cfg.get("geo_scale", 1.0)
+        else:
+            base["dim"] = st["dim"]
+        ex = {"opk": "init", "cls": cfg["cls"]}
+        for v in (0.5, 2.0):
+            a = C(var=v, len_scale=st["len_scale"], **base)
+            r.close("constructor var= gives that variance", a.var, v, rtol=1e-12, form="var", **ex)
+            b = build(cfg, st)
+            b.var = v
+            r.true("constructor var= == assignment of var", bool(a == b), info=repr(a) + " vs " + repr(b), form="var", **ex)
+            if cfg["cls"] != "JBessel" and st["opts"].get("len_low", 0.0) == 0:
+                for target in (2.0, [2.0, 1.0]):
+                    a = C(var=v, integral_scale=target, **base)
+                    r.close("constructor var= with integral_scale= gives that variance", a.var, v, rtol=1e-9, form="integral_scale", **ex)
+                    r.close("constructor integral_scale= gives that integral scale", a.integral_scale, 2.0, rtol=1e-5, form="integral_scale", **ex)
+                    b = C(var=v, len_scale=1.0, **base)
+                    b.integral_scale = target
+                    b.var = v
+                    r.close("constructor integral_scale= == assignment of integral_scale then var (len_scale)", a.len_scale, b.len_scale, rtol=1e-9, form="integral_scale", **ex)
+                    r.close("constructor integral_scale= == assignment of integral_scale then var (var_raw)", a.var_raw, b.var_raw, rtol=1e-9, form="integral_scale", **ex)
+                    r.close("constructor integral_scale= == assignment (anis)", a.anis, b.anis, rtol=1e-12, form="integral_scale", **ex)
         return r.done(outcome=canon(cfg, st))
     _touch(m, hist[0])
     for i, op in enumerate(hist):
